@@ -870,6 +870,8 @@ Definition process_answer (fuel : nat) (co : obj) (qid : nat) (a : ansinfo) (rq 
     match find_tmr (st_tape s) with
     | None => fail EDESYNC
     | Some (vrc, requeued) =>
+      (* ares_cookie_validate requeues only on the BADCOOKIE path, which drops the response *)
+      if requeued && zeqb vrc ARES_SUCCESS then fail EDESYNC else
       let! rq1 := (if requeued then
                      let! st := requeue_query f qo ARES_SUCCESS false true (res ARES_SUCCESS) in
                      if zeqb st ARES_SUCCESS then ret (rq ++ [qid]) else ret rq
